@@ -1,17 +1,17 @@
-//! In-process implementation driver: speaks the same line protocol as the Lean
-//! `driver`, but every answer comes from the real ferrous code (path dependency
-//! on /repo, feature `verif`).  One request per line, one answer per line.
+//! Shared parts of the in-process implementation drivers: every `impl_<family>` binary
+//! speaks the same line protocol as the Lean `drv_<family>` executable, but answers from
+//! the real ferrous code (path dependency on /repo, feature `verif`).
 
 use std::alloc::{GlobalAlloc, Layout, System};
 use std::io::{BufRead, Write};
 use std::sync::atomic::{AtomicUsize, Ordering};
 
-mod util;
-mod resp;
+pub mod util;
 
 /// Allocator wrapper: records the largest single request since the last reset and
 /// refuses (after saying so on stderr) requests above `LIMIT`, so that a length
 /// field turned into an allocation is observed instead of being left to the OS.
+/// Install in a binary with `#[global_allocator] static A: Tracking = Tracking;`.
 pub struct Tracking;
 pub static MAX_REQ: AtomicUsize = AtomicUsize::new(0);
 pub const LIMIT: usize = 1 << 30;
@@ -51,41 +51,21 @@ fn refuse(n: usize) {
 }
 extern "C" { #[link_name = "write"] fn libc_write(fd: i32, p: *const u8, n: usize) -> isize; }
 
-#[global_allocator]
-static A: Tracking = Tracking;
-
 pub fn reset_alloc() { MAX_REQ.store(0, Ordering::Relaxed); }
 pub fn max_alloc() -> usize { MAX_REQ.load(Ordering::Relaxed) }
 
-fn main() {
+/// One request per line on stdin, one answer per line on stdout (flushed).
+/// Panics are silenced (callers use `catch_unwind` and report `panic`).
+pub fn line_loop<S>(mut state: S, mut step: impl FnMut(&mut S, &[&str]) -> String) {
     std::panic::set_hook(Box::new(|_| {}));
-    let args: Vec<String> = std::env::args().collect();
-    if args.len() < 2 { eprintln!("usage: impl_driver <family>"); std::process::exit(2); }
-    let fam = args[1].clone();
     let stdin = std::io::stdin();
     let stdout = std::io::stdout();
     let mut out = stdout.lock();
-    let mut st = State::new(&fam);
     for line in stdin.lock().lines() {
         let line = match line { Ok(l) => l, Err(_) => break };
         let ws: Vec<&str> = line.split_whitespace().collect();
-        let ans = st.step(&ws);
+        let ans = step(&mut state, &ws);
         let _ = writeln!(out, "{}", ans);
         let _ = out.flush();
-    }
-}
-
-enum State { Resp }
-impl State {
-    fn new(f: &str) -> State {
-        match f {
-            "resp" => State::Resp,
-            _ => { eprintln!("unknown family {}", f); std::process::exit(2) }
-        }
-    }
-    fn step(&mut self, ws: &[&str]) -> String {
-        match self {
-            State::Resp => resp::step(ws),
-        }
     }
 }
